@@ -311,9 +311,15 @@ def extra_rules(ctx):
     ab = ctx.src(BD).func("align_banded")
     nv = local_value(ab, "neg_inf")
     ctx.need(nv is not None, "neg_inf of align_banded")
+    # local_value composes the value from the function's inputs: `affine_penalty` and `matrix` (transposed when the sequences are
+    # swapped) appear with the values the function gave them before
+    aff, mat = local_value(ab, "affine_penalty", descend=False), local_value(ab, "matrix", descend=False)
+    # (a name the function never binds is the parameter itself)
+    aff_s = f"({ast.unparse(aff)})" if aff is not None else "affine_penalty"
+    mat_s = f"({ast.unparse(mat)})" if mat is not None else "matrix"
     ctx.ob("R3.sentinel-headroom", BD, "align_banded", "neg_inf = INT32_MIN - min penalty - min(0, min score)",
-           _same(nv, "np.iinfo(np.int32).min - (min(gap_penalty) if affine_penalty else gap_penalty) - "
-                     "(np.min(matrix.score_matrix()) if np.min(matrix.score_matrix()) < 0 else 0)"),
+           _same(nv, f"np.iinfo(np.int32).min - (min(gap_penalty) if {aff_s} else gap_penalty) - "
+                     f"(np.min({mat_s}.score_matrix()) if np.min({mat_s}.score_matrix()) < 0 else 0)"),
            "the sentinel must stay above INT32_MIN after a gap penalty and a negative substitution score have BOTH been added (a band-edge "
            "cell holds neg_inf + penalty and the next diagonal step adds a score to it); the code computes " + ast.unparse(nv)[:200], ab.lineno)
     # ---- gapped seed extension: the upstream part reverses code[start - 1::-1] of BOTH sequences: it is skipped when either start is 0
